@@ -73,6 +73,29 @@ struct Env {
     }
     return true;
   }
+  // like start(), but with an explicit (possibly shared, read-only) staging dir and no deployment
+  bool start_with_staging(const std::string& shared, const std::string& user, const std::string& staging) {
+    shared_dir = shared;
+    user_dir = user;
+    staging_dir = staging;
+    mkdirs(user);
+    api = rime_get_api();
+    RIME_STRUCT(RimeTraits, traits);
+    traits.shared_data_dir = shared_dir.c_str();
+    traits.user_data_dir = user_dir.c_str();
+    traits.staging_dir = staging_dir.c_str();
+    traits.prebuilt_data_dir = staging_dir.c_str();
+    traits.distribution_name = "verif";
+    traits.distribution_code_name = "verif";
+    traits.distribution_version = "0";
+    traits.app_name = "rime.verif";
+    traits.min_log_level = 3;
+    traits.log_dir = "";
+    api->setup(&traits);
+    api->initialize(&traits);
+    return true;
+  }
+  std::string staging_dir;
   void stop() { api->finalize(); }
 };
 
